@@ -46,11 +46,36 @@ def _patched_run(factory, nsteps_max=None):
                  np.array(self.velocity), np.array(self.position))
         records.append((before, after, int(hop_targets[0]["target"]), id(self.tracer), float(self.time)))
 
+    # every trace store also keeps, on the side, the rejections recorded THROUGH it (plus what its source held when it was
+    # cloned): the specification of its frustrated_hop events, used by C04
+    import mudslide.tracer as mt
+    orig_fr = mt.Trace_.frustrated_hop
+
+    def wrapped_fr(self, time, hop_from, hop_to, zeta, prob):
+        self.__dict__.setdefault("_verif_fr", []).append((float(time), int(hop_from), int(hop_to), float(zeta)))
+        return orig_fr(self, time, hop_from, hop_to, zeta, prob)
+    mt.Trace_.frustrated_hop = wrapped_fr
+    clones = []
+    for cls_ in (mt.Trace_, mt.InMemoryTrace, mt.YAMLTrace):
+        if "clone" in cls_.__dict__:
+            oc = cls_.__dict__["clone"]
+
+            def make(oc):
+                def wrapped_clone(self, *a, **kw):
+                    out = oc(self, *a, **kw)
+                    out.__dict__["_verif_fr"] = list(self.__dict__.get("_verif_fr", []))
+                    return out
+                return wrapped_clone
+            clones.append((cls_, oc))
+            cls_.clone = make(oc)
     TrajectorySH.hop_to_it = wrapped
     try:
         out = factory()
     finally:
         TrajectorySH.hop_to_it = orig
+        mt.Trace_.frustrated_hop = orig_fr
+        for cls_, oc in clones:
+            cls_.clone = oc
     return out, records
 
 
@@ -62,6 +87,8 @@ def _run_spec(spec):
     if "mass_hi" in spec:
         mass = 10 ** rng.uniform(0, spec["mass_hi"], size=spec["n"])
     model = SynthModel(rng, spec["N"], spec["n"], scale=spec.get("scale", 0.02), gap=spec.get("gap", 0.01), mass=mass)
+    if spec.get("int_mass"):
+        model.mass = np.ceil(model.mass).astype(np.int64)       # a user-defined model with an integer-dtype mass vector
     cls = hc.get_class(spec["cls"])
     x0 = np.array(spec["x0"])
     p0 = np.array(spec["p0"])
@@ -220,6 +247,8 @@ def run(ctx):
     for i in range(ctx.budget(200, 5000)):
         n = int(rng.integers(1, 6))
         mass = 10 ** rng.uniform(0, 4, size=n)
+        if i % 10 >= 8:
+            mass = np.ceil(mass)          # integer-valued: handed to the trajectory as an int64 array below
         x = rng.normal(size=n)
         v = rng.normal(size=n) * 0.01
         F0 = rng.normal(size=n) * 0.05
@@ -234,10 +263,13 @@ def run(ctx):
         mke = unfb(o[1 + 2 * n])
         e0 = FakeElec([0.0], forces=F0.reshape(1, n))
         e1 = FakeElec([0.0], forces=F1.reshape(1, n))
+        shell = ShellModel(1, mass.astype(np.int64), dtype=None) if i % 10 >= 8 else ShellModel(1, mass)
+        if i % 10 >= 8:
+            ctx.count("verlet:int64_masses")
         if i % 2 == 0:
-            t = TrajectorySH(ShellModel(1, mass), x, v * mass, 0, dt=dt)
+            t = TrajectorySH(shell, x, v * mass, 0, dt=dt)
         else:
-            t = AdiabaticMD(ShellModel(1, mass), x, v * mass, dt=dt)
+            t = AdiabaticMD(shell, x, v * mass, dt=dt)
         t.velocity = np.array(v)
         t.advance_position(None, e0)
         t.advance_velocity(e0, e1)
@@ -259,10 +291,12 @@ def run(ctx):
         ctx.monitor("worst_rel_hop_energy_error_in_runs", obs["worst_rel"])
         if not ok:
             ctx.oracle_fail("run-hop-energy:" + spec["cls"], "run_hops", spec, obs, req, text)
-    for spec in _run_specs(ctx, ctx.budget(4, 40)):
+    for j, spec in enumerate(_run_specs(ctx, ctx.budget(6, 40))):
         spec["cls"] = "TrajectorySH"
         spec["steps"] = 40
         spec.pop("mass_hi")
+        if j % 3 == 2:
+            spec["int_mass"] = True
         spec["dt"] = float(rng.choice([1.0, 2.0, 4.0]))
         spec["p0"] = list(rng.normal(size=spec["n"]) * 8.0 + 3.0)
         ok, obs, req, text = oracle_drift(spec)
